@@ -331,7 +331,8 @@ def units(tier, seed):
         for kind in ('electricity', 'direct-use', 'chiller'):
             us.append(econ_cfg(L, K, kind))
     # a cogeneration plant claiming both credits in one input; a run with an add-on (adjusted project CAPEX)
-    for (L, K) in ([(2, 1)] if tier == 'quick' else ECON_BOUNDS[tier]):
+    # (the two-product / add-on units have about twice the paths of a one-product unit: the largest (L, K) pairs exceed the unit time limit and are left out)
+    for (L, K) in ([(2, 1)] if tier == 'quick' else [lk for lk in ECON_BOUNDS[tier] if lk[0] + lk[1] <= 5]):
         us.append(dict(econ_cfg(L, K, 'cogen-topping'), all_products=True))
         us.append(dict(c04.cfg_of('electricity', L, K, False, addon=1), harness='econ'))
     # the closed-loop family has its own copy of the schedule / incentive code (SBTEconomics.Calculate)
